@@ -23,6 +23,9 @@ pub struct Case {
     pub size: String,
     /// assign | component | include (operand 0 of cons[0] replaced by a reference to P ::= ty (FROM (operand))) | parent (P ::= ty (FROM cons[0]); A ::= P (FROM cons[1]))
     pub ctx: String,
+    /// how the size is written: "" = `SIZE (1..4)`; fixed = `SIZE (4)`; fixed-ext = `SIZE (4, ...)`; range-ext = `SIZE (1..4, ...)`; open = `SIZE (2..MAX)`
+    #[serde(default)]
+    pub size_form: String,
 }
 
 // ------------------------------------------------------------- interval sets over code points
@@ -218,7 +221,13 @@ fn expr_text(e: &Expr, ops: &[Opnd], first_override: Option<&str>) -> String {
 pub fn text(c: &Case) -> String {
     let ops = operands(&c.ty);
     let t = asn_name(&c.ty);
-    let size = "SIZE (1..4)";
+    let size = match c.size_form.as_str() {
+        "fixed" => "SIZE (4)",
+        "fixed-ext" => "SIZE (4, ...)",
+        "range-ext" => "SIZE (1..4, ...)",
+        "open" => "SIZE (2..MAX)",
+        _ => "SIZE (1..4)",
+    };
     let from = |e: &Expr, fo: Option<&str>| format!("FROM ({})", expr_text(e, &ops, fo));
     let mut pre = String::new();
     let cons_text = |first_override: Option<&str>| -> String {
@@ -456,7 +465,7 @@ impl Prop for C15 {
                 }
                 for size in ["none", "before", "after"] {
                     for ctx in ["assign", "component"] {
-                        out.push(Case { ty: ty.into(), cons: vec![e.clone()], size: size.into(), ctx: ctx.into() });
+                        out.push(Case { ty: ty.into(), cons: vec![e.clone()], size: size.into(), ctx: ctx.into(), size_form: String::new() });
                     }
                 }
             }
@@ -466,10 +475,27 @@ impl Prop for C15 {
                     continue;
                 }
                 for ctx in ["assign", "component"] {
-                    out.push(Case { ty: ty.into(), cons: vec![e.clone()], size: "inter".into(), ctx: ctx.into() });
-                    out.push(Case { ty: ty.into(), cons: vec![e.clone()], size: "inter-rev".into(), ctx: ctx.into() });
+                    out.push(Case { ty: ty.into(), cons: vec![e.clone()], size: "inter".into(), ctx: ctx.into(), size_form: String::new() });
+                    out.push(Case { ty: ty.into(), cons: vec![e.clone()], size: "inter-rev".into(), ctx: ctx.into(), size_form: String::new() });
                     if !e.ops.is_empty() {
-                        out.push(Case { ty: ty.into(), cons: vec![e.clone()], size: "split".into(), ctx: ctx.into() });
+                        out.push(Case { ty: ty.into(), cons: vec![e.clone()], size: "split".into(), ctx: ctx.into(), size_form: String::new() });
+                    }
+                }
+            }
+            // the size written in other ways (fixed, with a marker inside, open): every expression intersected with it in
+            // either order as an assignment, the single operands also next to it as a serial constraint and as component
+            for form in ["fixed", "fixed-ext", "range-ext", "open"] {
+                for e in e1.iter().chain(e2.iter()) {
+                    if !tier.thorough() && e.operands.len() == 2 && (e.operands[0] + e.operands[1]) % 3 != 0 {
+                        continue;
+                    }
+                    for size in ["inter", "inter-rev"] {
+                        out.push(Case { ty: ty.into(), cons: vec![e.clone()], size: size.into(), ctx: "assign".into(), size_form: form.into() });
+                    }
+                }
+                for e in e1.iter() {
+                    for size in ["before", "after", "inter", "inter-rev"] {
+                        out.push(Case { ty: ty.into(), cons: vec![e.clone()], size: size.into(), ctx: "component".into(), size_form: form.into() });
                     }
                 }
             }
@@ -477,7 +503,7 @@ impl Prop for C15 {
             for e in e1.iter().chain(e2.iter()) {
                 if e.operands.iter().all(|o| *o < 4) && e.ops.iter().all(|o| *o == 'U') {
                     for ctx in ["assign", "component"] {
-                        out.push(Case { ty: ty.into(), cons: vec![e.clone()], size: "no-from".into(), ctx: ctx.into() });
+                        out.push(Case { ty: ty.into(), cons: vec![e.clone()], size: "no-from".into(), ctx: ctx.into(), size_form: String::new() });
                     }
                 }
             }
@@ -485,29 +511,29 @@ impl Prop for C15 {
             if ty != "Universal" {
                 for ctx in ["assign", "component"] {
                     for size in ["none", "before", "after", "inter", "inter-rev"] {
-                        out.push(Case { ty: ty.into(), cons: vec![Expr { operands: vec![10], ops: vec![] }], size: size.into(), ctx: ctx.into() });
+                        out.push(Case { ty: ty.into(), cons: vec![Expr { operands: vec![10], ops: vec![] }], size: size.into(), ctx: ctx.into(), size_form: String::new() });
                     }
                     for b in [0usize, 4, 8] {
                         for op in ['U', 'I'] {
-                            out.push(Case { ty: ty.into(), cons: vec![Expr { operands: vec![10, b], ops: vec![op] }], size: "none".into(), ctx: ctx.into() });
-                            out.push(Case { ty: ty.into(), cons: vec![Expr { operands: vec![b, 10], ops: vec![op] }], size: "none".into(), ctx: ctx.into() });
+                            out.push(Case { ty: ty.into(), cons: vec![Expr { operands: vec![10, b], ops: vec![op] }], size: "none".into(), ctx: ctx.into(), size_form: String::new() });
+                            out.push(Case { ty: ty.into(), cons: vec![Expr { operands: vec![b, 10], ops: vec![op] }], size: "none".into(), ctx: ctx.into(), size_form: String::new() });
                         }
                     }
                 }
             }
             // one witness row each for the constructions that are known not to work at all (see known_findings.txt)
             for e in e1.iter() {
-                out.push(Case { ty: ty.into(), cons: vec![e.clone()], size: "none".into(), ctx: "include".into() });
+                out.push(Case { ty: ty.into(), cons: vec![e.clone()], size: "none".into(), ctx: "include".into(), size_form: String::new() });
                 for ctx in ["include-rev", "include-rev-size-first", "include-rev-size-last"] {
-                    out.push(Case { ty: ty.into(), cons: vec![e.clone()], size: "none".into(), ctx: ctx.into() });
+                    out.push(Case { ty: ty.into(), cons: vec![e.clone()], size: "none".into(), ctx: ctx.into(), size_form: String::new() });
                 }
             }
             // serial / parent: 1-operand × 1-operand
             if !heavy || tier.thorough() {
                 for a in &e1 {
                     for b in &e1 {
-                        out.push(Case { ty: ty.into(), cons: vec![a.clone(), b.clone()], size: "none".into(), ctx: "assign".into() });
-                        out.push(Case { ty: ty.into(), cons: vec![a.clone(), b.clone()], size: "none".into(), ctx: "parent".into() });
+                        out.push(Case { ty: ty.into(), cons: vec![a.clone(), b.clone()], size: "none".into(), ctx: "assign".into(), size_form: String::new() });
+                        out.push(Case { ty: ty.into(), cons: vec![a.clone(), b.clone()], size: "none".into(), ctx: "parent".into(), size_form: String::new() });
                     }
                 }
             }
@@ -515,7 +541,7 @@ impl Prop for C15 {
         for ty in others {
             for e in e1.iter().chain(e2.iter().filter(|e| e.operands[0] < 4 && e.operands[1] < 4)) {
                 for ctx in ["assign", "component"] {
-                    out.push(Case { ty: ty.into(), cons: vec![e.clone()], size: "none".into(), ctx: ctx.into() });
+                    out.push(Case { ty: ty.into(), cons: vec![e.clone()], size: "none".into(), ctx: ctx.into(), size_form: String::new() });
                 }
             }
         }
@@ -529,7 +555,7 @@ impl Prop for C15 {
                                 if (o1 == 'E' && o2 == 'E') || a == b || b == c3 {
                                     continue;
                                 }
-                                out.push(Case { ty: "IA5".into(), cons: vec![Expr { operands: vec![a, b, c3], ops: vec![o1, o2] }], size: "none".into(), ctx: "assign".into() });
+                                out.push(Case { ty: "IA5".into(), cons: vec![Expr { operands: vec![a, b, c3], ops: vec![o1, o2] }], size: "none".into(), ctx: "assign".into(), size_form: String::new() });
                             }
                         }
                     }
@@ -546,7 +572,7 @@ impl Prop for C15 {
                                     if o1 == 'E' && o2 == 'E' {
                                         continue;
                                     }
-                                    out.push(Case { ty: ty.into(), cons: vec![Expr { operands: vec![a, b, c3], ops: vec![o1, o2] }], size: "none".into(), ctx: "assign".into() });
+                                    out.push(Case { ty: ty.into(), cons: vec![Expr { operands: vec![a, b, c3], ops: vec![o1, o2] }], size: "none".into(), ctx: "assign".into(), size_form: String::new() });
                                 }
                             }
                         }
@@ -577,7 +603,9 @@ impl Prop for C15 {
             s
         };
         let shapes: String = c.cons.iter().map(shape).collect::<Vec<_>>().join(";");
-        let kb = format!("alphabet|type={}|ctx={}|size={}|shape={shapes}", c.ty, c.ctx, c.size);
+        // (the way the size is written rides on the context label, so that the per-(size placement, shape) entries of the known findings keep matching)
+        let ctx_label = if c.size_form.is_empty() { c.ctx.clone() } else { format!("{}+size-as-{}", c.ctx, c.size_form) };
+        let kb = format!("alphabet|type={}|ctx={ctx_label}|size={}|shape={shapes}", c.ty, c.size);
         // reference
         let (exact, noexc, blind) = match &b {
             Some(b) => {
